@@ -135,6 +135,8 @@ def run(F, ck, tier):
         ck.ob('R10.2', 'ctl.extra_key:' + q, bool(gets) and not bad, 'extra looking sums are fetched by the position of the lookup' if gets and not bad else
               ('%s fetches the extra looking sums with a key taken from the lookup\'s tables (a table index) instead of the lookup\'s position: declared extra values are applied to the wrong lookup or ignored' % q) if gets else
               '%s no longer consults ctl_extra_looking_sums' % q, (bad or gets)[0].loc() if (bad or gets) else '%s:%d' % (fn.file, fn.line))
+    # ---------------------------------------------------------------- R10.8
+    default_targets(F, ck, 'R10.8')
     # ---------------------------------------------------------------- R10.6
     adjacent_grouping(F, ck)
     # ---------------------------------------------------------------- R10.7
@@ -212,3 +214,34 @@ def adjacent_grouping(F, ck):
                   'UNSORTED ADJACENT GROUPING: %s applies %s() to a sequence that is not sorted: equal keys that are not adjacent form separate groups (for cross-table lookups: a looking table listed twice with another table in between '
                   'gets two sets of helper columns while every other routine treats all entries of a table as one group - such a system cannot be proved)' % (fn.qual, x['n']), x.get('s'))
     ck.floor('R10.6', 'adjacency-based grouping sites', n, 4)
+
+
+TARGET_TYPES = ('Target', 'BoolTarget', 'ExtensionTarget', 'HashOutTarget')
+
+
+def default_targets(F, ck, rule):
+    """`Target::default()` is `VirtualTarget { index: 0 }` - an arbitrary wire of the circuit, NOT the constant zero.  Outside the
+    derived `Default` impls of generator structs (placeholders that deserialisation overwrites) no circuit-building code may obtain a
+    target from `default()` / `unwrap_or_default()`: the value it then adds or connects is whatever the first virtual target holds."""
+    from .facts import walk, callee, parse_path, ty_adt
+    ck.rule(rule, 'no Target / BoolTarget / ExtensionTarget is produced by default() or unwrap_or_default() outside derived Default impls: a default target is virtual target 0, not the constant zero')
+    nimpl = 0
+    for fn in sorted(F.fns.values(), key=lambda f: f.qual):
+        if fn.crate not in ('plonky2', 'starky') or fn.body is None:
+            continue
+        for n in walk(fn.body):
+            if n.get('k') not in ('MCall', 'Call'):
+                continue
+            nm = parse_path(callee(n) or '')[1] or n.get('n')
+            if nm not in ('unwrap_or_default', 'default'):
+                continue
+            t = (ty_adt(fn.ty(n) or '') or '')
+            if t not in TARGET_TYPES:
+                continue
+            if fn.name == 'default':
+                nimpl += 1
+                continue
+            ck.ob(rule, 'default-target:%s:%s' % (fn.qual, nm), False,
+                  'ARBITRARY TARGET USED AS ZERO: %s obtains a %s from %s(): that is virtual target 0 of the circuit, whose value is whatever the circuit assigns to it - not the constant zero the native code (F::default()) uses' % (fn.qual, t, nm), n.get('s'))
+    ck.ob(rule, 'default-target:none', True, 'only derived Default impls construct default targets (%d sites)' % nimpl)
+    ck.floor(rule, 'default() target constructions inside derived Default impls (the matcher sees its positive examples)', nimpl, 8)
